@@ -208,3 +208,17 @@ func CountJumps(body []byte) int {
 	}
 	return n
 }
+
+// HasOpcode reports whether body contains an instruction with the given name.
+func HasOpcode(body []byte, name string) bool {
+	is, _, err := decode(body)
+	if err != nil {
+		return false
+	}
+	for _, i := range is {
+		if code.String(i.op) == name {
+			return true
+		}
+	}
+	return false
+}
